@@ -6,6 +6,7 @@ from harness.translators import c14_gen
 
 import scikit_tt.data_driven.transform as tdt
 from scipy.special import legendre as sp_legendre
+from fractions import Fraction
 
 PROP_FILES = ['Props/C14.v']
 GEN = os.path.join(lib.COQ, 'Gen', 'BasisFunctions.v')
@@ -222,6 +223,24 @@ def num_diff(fun, t, i, h):
     return (fun(t + e) - fun(t - e)) / (2 * h)
 
 
+def legendre_exact(n, x):
+    """(P_n(x), P_n'(x), P_n''(x)) in exact rational arithmetic, as floats"""
+    P = [Fraction(1), x]
+    for m in range(1, n + 1):
+        P.append(((2 * m + 1) * x * P[m] - m * P[m - 1]) / (m + 1))
+    out = []
+    c = [Fraction(0)] * n + [Fraction(1)]
+    for _ in range(3):
+        out.append(float(sum(ci * P[i] for i, ci in enumerate(c))))
+        m = len(c) - 1                                # derivative in the Legendre basis: P_j' = sum (2i+1) P_i, i = j-1, j-3, ...
+        d = [Fraction(0)] * max(m, 1)
+        for j in range(1, m + 1):
+            for i in range(j - 1, -1, -2):
+                d[i] += c[j] * (2 * i + 1)
+        c = d
+    return out
+
+
 def side_case(seed):
     rng = random.Random(seed)
     fam = rng.choice(FAM_ALL)
@@ -262,6 +281,25 @@ def side_case(seed):
         He = np.array([[float(f.partial2(t, i, j)) for j in range(dim)] for i in range(dim)])
         if not rel_close(H, He, 1e-12):
             return 'hessian is not the matrix of second partials', desc
+    # Legendre at high degree against exact rational arithmetic (Bonnet recurrence; derivatives in the Legendre basis):
+    # the derivative formulas must stay accurate where the monomial coefficients of P_n cancel catastrophically
+    if fam == 'Legendre':
+        n = rng.choice([12, 20, 30, 40, 50, 65, 80])
+        D = rng.choice([1.0, 2.0, 0.5])
+        k16 = rng.randint(-16, 16)
+        fh = tdt.Legendre(index, n, domain=D, dimension=dim)
+        th = t.copy()
+        th[index] = D * k16 / 16.0                   # exact in binary floating point
+        desc['high_degree'] = {'degree': n, 'domain': D, 'x_over_domain': '%d/16' % k16}
+        ex = legendre_exact(n, Fraction(k16, 16))
+        scale = [1.0, n * (n + 1) / 2.0, (n - 1) * n * (n + 1) * (n + 2) / 8.0]
+        try:
+            got = [float(fh(th)), float(fh.partial(th, index)) * D, float(fh.partial2(th, index, index)) * D * D]
+        except Exception as e:
+            return 'Legendre of degree %d raised %r' % (n, e), desc
+        for name, g_, e_, sc in zip(('value', 'partial', 'partial2'), got, ex, scale):
+            if not abs(g_ - e_) <= 1e-9 * max(1.0, abs(e_), sc):
+                return 'Legendre degree %d at x/domain = %d/16: %s = %r, exact %r' % (n, k16, name, g_ / (D if name == 'partial' else D * D if name == 'partial2' else 1), e_ / (D if name == 'partial' else D * D if name == 'partial2' else 1)), desc
     # several objects on the same grid: a second B-spline with the same knots and degree but other coefficients (the
     # members of a spline basis) has its own derivative
     if fam == 'Bspline':
@@ -345,7 +383,7 @@ def run(ctx):
 
 TRUSTED = ['Coq 8.16.1 kernel; Coquelicot 3 (is_derive, auto_derive)', 'axioms (stdlib): sig_forall_dec, sig_not_dec, functional_extensionality_dep, classic',
            'translator harness/translators/c14_gen.py (validated on every run against the real methods)',
-           'scipy.special.legendre / BSpline.derivative / numpy ufuncs are oracles', 'IEEE rounding not modelled']
+           'scipy.special.legendre / numpy.polynomial.legendre.legder, legval / BSpline.derivative / numpy ufuncs are oracles', 'IEEE rounding not modelled']
 RULE = ('obligations = is_derive theorems over the function bodies regenerated from transform.py; translation validation = the emitted Coq expressions, evaluated by an independent evaluator, '
         'agree with __call__/partial/partial2 on random parameters/points; side check = central differences for partial/partial2 in every direction, gradient/Hessian assembly, vectorised evaluation, '
         'all 9 families incl. Bspline; distinct/non-trivial = (family, dimension>1) cells')
